@@ -1260,6 +1260,9 @@ func (m *Model) numberMethod(a *Node, item any, next emitFn, isDecimal bool) *me
 			if r, ok := new(big.Rat).SetString(string(v)); ok {
 				exact = r
 			}
+		case int64:
+			// (D49) an integer item is that integer, not its nearest double
+			exact.SetInt64(v)
 		}
 	}
 	pow := new(big.Rat).SetInt(new(big.Int).Exp(big.NewInt(10), big.NewInt(absInt(s)), nil))
@@ -1414,7 +1417,12 @@ func (m *Model) datetimeMethod(a *Node, item any, next emitFn) *merr {
 		}
 		return suppErr("%s format is not recognized: %q", a.S, s)
 	}
-	if prec >= 0 && v.Kind != "date" {
+	want := map[string]string{"date": "date", "time": "time", "time_tz": "timetz", "timestamp": "timestamp", "timestamp_tz": "timestamptz"}[a.S]
+	// (D50) the precision belongs to the result of the cast: a zone-less timestamp is first read in the
+	// context zone and the instant is rounded then. (For every other pair rounding and casting commute,
+	// offsets being whole seconds.)
+	roundAfter := prec >= 0 && v.Kind == "timestamp" && want == "timestamptz"
+	if prec >= 0 && v.Kind != "date" && !roundAfter {
 		unit := time.Second / time.Duration(math.Pow10(prec))
 		r := v.T.Round(unit)
 		if (v.Kind == "time" || v.Kind == "timetz") && r.Day() != v.T.Day() {
@@ -1426,13 +1434,17 @@ func (m *Model) datetimeMethod(a *Node, item any, next emitFn) *merr {
 		}
 		v = &mdt{v.Kind, r}
 	}
-	want := map[string]string{"date": "date", "time": "time", "time_tz": "timetz", "timestamp": "timestamp", "timestamp_tz": "timestamptz"}[a.S]
 	if a.S != "datetime" && v.Kind != want {
 		var err *merr
 		v, err = m.castDT(v, want, a.S, s)
 		if err != nil {
 			return err
 		}
+	}
+	if roundAfter {
+		// (the offset shown is the one in force at the rounded instant)
+		r := v.T.Round(time.Second / time.Duration(math.Pow10(prec))).In(m.env.zone)
+		v = &mdt{v.Kind, r.In(fixedOf(r))}
 	}
 	return next(v)
 }
